@@ -6,6 +6,7 @@ import Uquic.Proofs.SentLedger
 import Uquic.Proofs.SentFlight
 import Uquic.Proofs.SentAcked
 import Uquic.Proofs.SentTimer
+import Uquic.Proofs.SentSkipped
 
 namespace Uquic.Props.C06
 open Uquic.Model.Sent Uquic.Proofs.Sent List
@@ -146,10 +147,6 @@ theorem ack_of_unsent (s : State) (env : Env) (ranges : List Range) (lvl : Level
   unfold State.receivedAck
   simp only [hg, hh, hl, hgt, if_true]
 
-
-def Op.isRetry : Op → Bool
-  | .retry => true
-  | _ => false
 
 /-- does the ACK with these ranges (wire order) acknowledge packet number `p` -/
 def acks (ranges : List Range) (p : PN) : Bool :=
@@ -338,6 +335,42 @@ theorem timer_armed (pn : PN) (val client : Bool) (nts : PN) (ops : List (Op × 
     Initial packet; a deadline one PTO later is armed -/
 example : let s := ((State.new 0 false true 300).run [(.send .initial 1000 (-1) 100 false false [⟨1, true⟩] [], wEnv)]).s
     needsTimer s = true ∧ s.alarm.time = 200001000 := by decide
+
+/-! ### which skipped numbers are remembered -/
+
+theorem new_SeqGens (pn : PN) (val client : Bool) (nts : PN) : SeqGens (State.new pn val client nts) := by
+  constructor <;> intro sp h <;> simp [State.new] at h <;> subst h <;> rfl
+
+theorem remembered_run (ops : List (Op × StepEnv)) : ∀ (s : State) (gs : List PN), SeqGens s →
+    s.app.hist.skipped = lastN maxSkippedPackets gs → (ops.all fun x => !Op.isRetry x.1) = true → (s.run ops).res = .ok →
+    (s.run ops).s.app.hist.skipped = lastN maxSkippedPackets (gs ++ (s.run ops).skipped) := by
+  induction ops with
+  | nil => intro s gs _ h _ _; simpa [State.run] using h
+  | cons x xs ih =>
+    intro s gs g h hnr hok
+    obtain ⟨op, e⟩ := x
+    simp only [List.all_cons, Bool.and_eq_true, Bool.not_eq_true'] at hnr
+    simp only [State.run] at hok ⊢
+    cases hr : (s.step op e).2.res with
+    | ok =>
+      simp only [hr] at hok ⊢
+      have r := step_skrel g hnr.1 hr
+      have h' : (s.step op e).1.app.hist.skipped = lastN maxSkippedPackets (gs ++ (s.step op e).2.skipped) := by
+        rw [r.app, h, lastN_ring]
+      have := ih _ _ (SeqGens_rel g r) h' hnr.2 hok
+      rw [this, List.append_assoc]
+    | err c => simp [hr] at hok
+    | panic c => simp [hr] at hok
+
+/-- **remembered_last**: in every history without a Retry that completed normally, the skipped packet numbers
+    the application-data history remembers (and `ack_of_skipped_partial` protects) are exactly the last
+    `maxSkippedPackets` of all packet numbers skipped so far -/
+theorem remembered_last (pn : PN) (val client : Bool) (nts : PN) (ops : List (Op × StepEnv))
+    (hnr : (ops.all fun x => !Op.isRetry x.1) = true) (hok : ((State.new pn val client nts).run ops).res = .ok) :
+    ((State.new pn val client nts).run ops).s.app.hist.skipped =
+      lastN maxSkippedPackets ((State.new pn val client nts).run ops).skipped := by
+  have := remembered_run ops _ [] (new_SeqGens pn val client nts) (by simp [State.new, Space.new, lastN]) hnr hok
+  simpa using this
 
 /-! ### examples: the hypotheses are satisfiable by non-trivial histories -/
 
